@@ -75,7 +75,29 @@ def case_st(draw):
     swaps = draw(st.lists(st.sampled_from(inside), max_size=2, unique=True)) if inside and draw(st.booleans()) else []
     return {"tree": spec, "listing": draw(st.booleans()), "small_max": draw(st.integers(0, 4)) == 0, "reqs": reqs, "swaps": swaps,
             # how the document root is spelled in the configuration
-            "root_via": draw(st.sampled_from(["real", "real", "symlink", "dotdot", "relative"]))}
+            "root_via": draw(st.sampled_from(["real", "real", "symlink", "dotdot", "relative"])),
+            # requests handed to the handler directly, or sent through the server protocol in front of it
+            "through": draw(st.sampled_from(["handler", "handler", "protocol"]))}
+
+
+def _via_protocol(handler, url: str):
+    """(status, meta, body bytes) of the request sent through GeminiServerProtocol, or None."""
+    from nauyaca.server.protocol import GeminiServerProtocol
+    from vlib import srvsim, vloop
+    from vlib.faketransport import FakeTransport
+
+    async def scenario(loop):
+        tr = FakeTransport(loop)
+        tr.attach(GeminiServerProtocol(handler.handle, None))
+        tr.feed(url.encode("utf-8", "surrogateescape") + b"\r\n")
+        await vloop.settle(6)
+        return tr.written()
+
+    S = vloop.run(scenario)
+    wf = srvsim.parse_wf(S) if S else "empty"
+    if isinstance(wf, str):
+        return None
+    return wf[0], wf[1].decode("utf-8", "replace"), wf[2]
 
 
 def run_tree(case: dict):
@@ -136,12 +158,26 @@ def run_tree(case: dict):
                     if rq["kind"] == "complete":
                         return viol("servable-file-unrequestable", f"{rq['rel']!r}: URL {url[:120]!r} rejected")
                     continue
-                try:
-                    resp = handler.handle(request)
-                    status, meta, body = resp.status, resp.meta, resp.body
-                except Exception as e:  # the protocol turns this into a 40 whose meta echoes str(e)
-                    stats["raised"] += 1
-                    status, meta, body = 40, f"Server error: {e}", None
+                if case.get("through") == "protocol":
+                    got = _via_protocol(handler, url)
+                    if got is None:
+                        if rq["kind"] == "complete":
+                            return viol("servable-file-unrequestable", f"{rq['rel']!r}: no well-formed response for {url[:120]!r}")
+                        continue
+                    status, meta, body = got
+                    if status == 59:
+                        stats["rejected_url"] += 1
+                        if rq["kind"] == "complete":
+                            return viol("inside-file-not-served", f"{rq['rel']!r} requested as {rq['path']!r} ({rq['labels'][0]}) through the "
+                                        f"server protocol -> {status} {meta[:60]!r}", spelling=rq["labels"][0], path=rq["path"])
+                        continue
+                else:
+                    try:
+                        resp = handler.handle(request)
+                        status, meta, body = resp.status, resp.meta, resp.body
+                    except Exception as e:  # the protocol turns this into a 40 whose meta echoes str(e)
+                        stats["raised"] += 1
+                        status, meta, body = 40, f"Server error: {e}", None
                 if isinstance(body, bytes):
                     body_s = body.decode("utf-8", "replace")
                 else:
@@ -239,7 +275,7 @@ def _nontrivial(case, v):
 
 
 def _labels(case, v):
-    out = ["listing" if case["listing"] else "nolisting", "root:" + case.get("root_via", "real")]
+    out = ["listing" if case["listing"] else "nolisting", "root:" + case.get("root_via", "real"), "through:" + case.get("through", "handler")]
     kinds = {n["t"] for n in case["tree"]["nodes"]}
     out += ["tree:" + k for k in sorted(kinds)]
     if any(n["t"] == "link" and n["to"].startswith(("outside", "capsule-secret", "capsule2")) for n in case["tree"]["nodes"]):
